@@ -3,6 +3,7 @@ import Driver.Levels
 import Driver.CodecSuite
 import Driver.DBSuite
 import Driver.HistSuite
+import Driver.DiskSuite
 
 open Driver in
 def main (args : List String) : IO UInt32 := do
@@ -17,4 +18,5 @@ def main (args : List String) : IO UInt32 := do
   | ["codec"] => loop stdin stdout codecStep (); pure 0
   | ["db"] => loop stdin stdout dbStep dbInit; pure 0
   | ["hist"] => loop stdin stdout histStep (); pure 0
+  | ["disk"] => loop stdin stdout diskStep dkInit; pure 0
   | _ => IO.eprintln "usage: driver <suite>"; pure 2
